@@ -139,7 +139,7 @@ def finding_matches(fd, *, failure=None, obligation=None):
         return False
     m = fd.get("match", {})
     if failure is not None:
-        if "check" in m and m["check"] != failure.check:
+        if "check" in m and re.fullmatch(m["check"], failure.check) is None:
             return False
         if "signature" in m:
             return re.search(m["signature"], failure.signature) is not None
